@@ -56,7 +56,10 @@ class C12(CheckBase):
         cmdk = rng.weighted([(8, 'extract-files'), (3, 'extract-unused'), (4, 'read')])
         dest = rng.choice(['out', 'out/', './out', 'out/.', 'ABS/out', 'out//', 'sub/../out', 'ABS/out/',
                            'lnk/../out2', 'lnk/../out2/', 'ABS/lnk/../out2', 'lnkout', 'lnkout/', 'sub/deep/../../out'])
-        if rng.chance(0.06):
+        if cmdk == 'extract-unused' and rng.chance(0.15):
+            # a destination whose name contains a printf conversion: it is a directory name, not a format
+            dest = rng.choice(['fm%dt', 'fm%3dt', 'f%xm', 'fm%dt/', '%d'])
+        elif rng.chance(0.06):
             # the root directory as destination: whatever dfs then tries to create there is refused by the simulated kernel
             # (nothing outside the sandbox is ever touched); nothing may appear anywhere else instead
             dest = rng.choice(['/', '//', '/.', '///'])
@@ -91,6 +94,15 @@ class C12(CheckBase):
         if files['ESC'] is None:
             del files['ESC']
         sb.populate(files)
+        dest = case['cmd'][-1] if case['cmd'][0] in ('extract-files', 'extract-unused') else ''
+        if '%' in dest:
+            # the named directory itself, and every directory its name would turn into if it were used as a format
+            # with a sector number as argument (decoys: a mistake must find somewhere to land)
+            d0 = dest.rstrip('/')
+            decoys = {d0: None}
+            for k in range(s.nsectors):
+                decoys[d0 % k] = None
+            sb.populate(decoys)
         for v, f in s.all_files():
             name = f.name.split(b' ')[0].split(b'\0')[0]
             for base in (name, bytes([f.dir]) + b'.' + name):
